@@ -1046,8 +1046,13 @@ func (p *Parser) connectNamedObjArgs(objIndex uint32) parseResult {
 		if nameIndex = len(namepath) - amlNameLen; nameIndex < 0 {
 			return parseResultFailed
 		}
-		for i := 0; i < amlNameLen; i++ {
-			argObj.name[i] = namepath[nameIndex+i]
+		// An object whose namepath carries a prefix or several segments does not
+		// belong to the scope it is declared in: it only becomes visible under its
+		// name once relocateNamedObjects has moved it to the scope the path names.
+		if nameIndex == 0 {
+			for i := 0; i < amlNameLen; i++ {
+				argObj.name[i] = namepath[nameIndex+i]
+			}
 		}
 
 		// Check if this object's args specify a TermObj/DataRefObj which
@@ -1231,6 +1236,9 @@ func (p *Parser) relocateNamedObjects(objIndex uint32) parseResult {
 			p.objTree.detach(p.objTree.ObjectAt(obj.parentIndex), obj)
 			p.objTree.append(targetObj, obj)
 			p.objTree.ObjectAt(obj.firstArgIndex).value = namepath[nameIndex:]
+			for i := 0; i < amlNameLen; i++ {
+				obj.name[i] = namepath[nameIndex+i]
+			}
 			p.relocatedObjects++
 		}
 	}
